@@ -335,6 +335,15 @@ var fnIDs = map[*FuncVal]int{}
 var plainFnIDs = map[*ssa.Function]int{}
 var closureByID = map[int]*FuncVal{}
 
+// resetClosureIDs starts a new numbering: ids are meaningful inside one function's verification
+// conditions only, and what one function's symbolic execution has seen must not leak into the next
+// (the result of a run may not depend on the order or the set of targets).
+func resetClosureIDs() {
+	fnIDs = map[*FuncVal]int{}
+	plainFnIDs = map[*ssa.Function]int{}
+	closureByID = map[int]*FuncVal{}
+}
+
 func funcValPtr(f *FuncVal) *Term {
 	if len(f.Bindings) == 0 {
 		id, ok := plainFnIDs[f.Fn]
